@@ -636,7 +636,21 @@ def stepX (st : St) (w : List String) : St × String :=
       | _, _ => (st, "bad-op")
   | _ => (st, "bad-op")
 
-def step (st : St) (w : List String) : St × String :=
+/-- internals section replaced (the C++ wrapper answers with a bool) -/
+def withoutRet (ln : String) : String :=
+  " | ".intercalate ((ln.splitOn " | ").map fun p => if p.startsWith "I " then "I ret=-" else p)
+
+partial def step (st : St) (w : List String) : St × String :=
+  -- `xc`: the same context armed through the C++ wrapper reply_data::set (mpt++/event.cpp): same model, same demands
+  if w.head? = some "xc" then
+    match w with
+    | ["xc", "ctx", n] => if n.toNat?.isSome ∧ !n.startsWith "+" then
+        let r := step { st with sched := [] } ["r", "ctx", n]; (r.1, withoutRet r.2) else (st, "bad-op")
+    | ["xc", "arm", h] => if (parseHex h).isSome then let r := step st ["r", "arm", h]; (r.1, withoutRet r.2) else (st, "bad-op")
+    | ["xc", "reply", m] => let r := step st ["r", "reply", m]; (r.1, withoutRet r.2)
+    | ["xc", "drop", "ctx"] => let r := step st ["r", "drop", "ctx"]; (r.1, withoutRet r.2)
+    | _ => (st, "bad-op")
+  else
   if w.head? = some "s" then stepS st w else
   if w.head? = some "c" then stepC st w else
   if w.head? = some "xr" then stepX st w else
@@ -688,7 +702,8 @@ def step (st : St) (w : List String) : St × String :=
       let ans := nextAns st
       match op, args with
       | "arm", [h] =>
-        match parseData h with
+        -- `self:<hex>`: the id bytes already stand in the context's own buffer (same outcome demanded)
+        match (if h.startsWith "self:" then (parseHex (h.drop 5).toString).map fun b => (some b, b.length) else parseData h) with
         | some (b, n) =>
           if !c.owner ∨ n > 70000 then (st, "bad-op") else
           let bytes := b.getD (List.replicate n 0)
